@@ -119,6 +119,10 @@ def gen_plot(tier, seed):
                     ks = r.sample(all_ls, r.randint(1, len(all_ls)))
                     lines.append("k_slice " + " ".join(f"{l}={r.choice(c.items[l])}" for l in ks))
                     stats["slices"] += 1
+                elif r.random() < 0.15:
+                    l = r.choice(all_ls)
+                    lines.append(f"k_slice {NAME[l]}={r.choice(c.items[l])}")   # keyed by name, not letter: refused
+                    stats["invalid_on_purpose"] += 1
                 elif r.random() < 0.1:
                     lines.append("k_slice z=i1")                     # unknown dimension: refused
                     stats["invalid_on_purpose"] += 1
